@@ -355,6 +355,18 @@ def run_rows(case, ctx):
                         ref_all = spec.outputs(est, Q, meths)
                     except Exception:
                         ref_all = None
+                    # what the model answers when the same batch comes as a frame, BEFORE the history (a frame hands its
+                    # values over column-major: last-bit differences with the array answer are a container matter, the
+                    # clause is about what the history changes)
+                    ref_frame = {}
+                    with warnings.catch_warnings():
+                        warnings.simplefilter("ignore")
+                        for m_ in meths if ref_all is not None else ():
+                            try:
+                                ref_frame[m_] = spec.outputs(est, pandas.DataFrame(
+                                    Q, columns=["q%d" % j for j in range(Q.shape[1])]), [m_])[m_]
+                            except Exception:
+                                pass
                     for mb, pre in [(mb_, pre_) for mb_ in meths for pre_ in ("refused", "frame", "both")] \
                             if ref_all is not None else ():
                         if pre in ("refused", "both"):
@@ -395,9 +407,12 @@ def run_rows(case, ctx):
                                                           cfg=cfg)
                                         continue
                                     ctx.hit("rows.mixed_methods")
-                                    integer_ = numpy.asarray(ref_all[m]).dtype.kind in "iub"
-                                    if numpy.shape(again) != numpy.shape(ref_all[m]) or not all(
-                                            row_equal(ref_all[m][i], again[i], integer_) for i in range(n)):
+                                    ref_m = ref_all[m] if cname == "array" else ref_frame.get(m)
+                                    if ref_m is None:
+                                        continue
+                                    integer_ = numpy.asarray(ref_m).dtype.kind in "iub"
+                                    if numpy.shape(again) != numpy.shape(ref_m) or not all(
+                                            row_equal(ref_m[i], again[i], integer_) for i in range(n)):
                                         ctx.violation(K + "%s/changed-by-other-method" % m, "%s answers the same batch (%s) "
                                                       "differently after a refused %s call and a %s call on a DataFrame" % (
                                                           m, cname, mb, mb), cfg=cfg)
